@@ -152,8 +152,8 @@ func runC04(c *Ctx) {
 			if !ok || sel.Blocking || len(sel.States) != 1 || sel.States[0].Dir != types.RecvOnly {
 				return
 			}
-			lk, ok := sel.States[0].Chan.(*ssa.Lookup)
-			if !ok {
+			lk := mapLookupOf(sel.States[0].Chan)
+			if lk == nil {
 				return
 			}
 			g.found++
@@ -174,8 +174,8 @@ func runC04(c *Ctx) {
 		okArg := len(calls) == 1 && quitMap != nil
 		if okArg {
 			a := ir.CallOf(calls[0]).Args
-			lk, isLk := ir.Strip(a[3]).(*ssa.Lookup)
-			okArg = isLk && lk.X == quitMap
+			lk := mapLookupOf(a[3])
+			okArg = lk != nil && lk.X == quitMap
 		}
 		c.verdict(okArg, c.nm(fn)+" | the callback receives the peer's own quit channel", c.P.Pos(fn.Pos()), "peerQuits[sm.sp.Addr()] tested and passed on", "the per-peer quit channel tested before the callback is not the one handed to it")
 	})
